@@ -42,6 +42,10 @@ CLAIMED = {
          "Module trees (depth <=3) in which the same function names occur in many modules, with relative function imports, module imports, super. chains and call sites in every spelling (absolute, bare, relative dotted, function import, module-prefix import; static and through function values). An independent resolver implements the stated lookup order; the reference interpreter runs with the model's targets and the VM with the spelled names, and the host logs (body tags, parameters in declaration order, caller sentinels, return values) must agree. Enumerated error classes (duplicate function in a module, duplicate module, root module std, import without dot, ambiguous imports, unresolvable call, invalid module name) are planted in a share of the trees and must be compile errors.",
          "Call graphs are acyclic; unused imports of missing targets and malformed-but-dotted imports are not generated because the statement does not fix their status; 32-bit label collisions between cards and functions are not attacked.",
          "DESIGN.md section 4, C08"),
+ "C09": ("exploration", "differential testing of generated std-library calls against direct specifications of the contracts inside the reference interpreter (proptest-driven)",
+         "Programs with 1-3 calls of every std function on generated tables (sizes 0/1/2 over-represented, ties, int/real mixes, nil, string, nested-table values, arbitrary keys) or non-table inputs, with generated callbacks of arity 1-3 (closures and script functions; pure, allocating, capturing, counting, nested library call), spelled std.X or imported. The contracts of the property are written as specifications (call_std in refsem.rs); results and the inputs after the call are logged and must equal the specification's.",
+         "Callbacks neither log nor write globals (invocation count/order is not part of the contract); ordering functions only see mutually comparable values; key functions of *_by_key take two parameters.",
+         "DESIGN.md section 4, C09"),
  "C10": ("exploration", "independent bytecode verifier over every compiled output of three program generators (proptest-driven)",
          "Every module that compiles - well-scoped programs, closure-heavy programs and arbitrary card trees - is decoded front to back by a verifier with its own opcode and operand-width table (cross-checked against the crate's table through a hook) and checked for: known opcodes, complete operands, final Exit, jump/label/trace targets on instruction starts, labelled function/closure handles with consistent arity, complete UTF-8 strings, local/upvalue/global index ranges, id<->name bijection, trace coverage, and agreement with the crate's disassembler walk. All bytes of all outputs, not only executed paths.",
          "Trusts the verifier's own table (47 entries, cross-checked at start-up); arity of the named definition is checked for consistency across uses, not against the source.",
